@@ -187,6 +187,12 @@ def run(ctx: Ctx, tier: str) -> Result:
         AC + ".can_trigger": ["@self.location_action._LocationAction__condition"],
         AC + ".eval_watch": [P(watchf, 1)],
     }
+    # the condition may be evaluated in a helper of the same class that can_trigger delegates to
+    acf = p.func(AC + ".can_trigger")
+    for c0 in t.calls_in(acf):
+        for g_ in t.resolve_call(c0, acf).repo:
+            if g_.cls is acf.cls and g_.qname not in expected and isinstance(c0.func, ast.Attribute) and norm(c0.func.value) == "self":
+                expected[g_.qname] = expected[AC + ".can_trigger"]
     for f, c in consumers:
         txt = ctx.expand.expand(c.args[0], f) if c.args else []
         want = expected.get(f.qname)
